@@ -369,7 +369,7 @@ class Gen:
         self.path()
         # gap after the last token of the path, before '(' or 'returns': a comment there is
         # finding F10; it is generated only when opts["f10"] is set
-        after_path = "f10" if (self.o["f10"] and r.random() < 0.5) else "path-end"
+        after_path = "f10" if (self.o["f10"] and r.random() < 0.35) else "path-end"
         x = r.random()
         if x < 0.75:
             self.body(after_path)
@@ -446,7 +446,7 @@ class Deco:
         r = self.r
         s = self.ws()
         if allow_comment and self.inline >= 1 and r.random() < self.pc * 0.5:
-            s = self.ws() + self.block() + self.ws()
+            s = (self.ws() or " ") + self.block() + self.ws()     # "/" + "/*..." would be a line comment
         if s == "" and not allow_empty:
             s = " "
         return s
@@ -462,9 +462,9 @@ class Deco:
         # trailing part of the current line
         x = r.random()
         if x < self.pc:
-            s += self.ws() + self.line_comment()
+            s += (self.ws() or " ") + self.line_comment()
         elif x < self.pc * 1.4:
-            s += self.ws() + self.block() + self.ws("")
+            s += (self.ws() or " ") + self.block() + self.ws("")
             if r.random() < 0.3:
                 s += " " + self.line_comment()
         elif r.random() < 0.1:
@@ -513,7 +513,7 @@ class Deco:
                 out.append(r.choice(["", " ", "\n", "\n\n", " \n\t"]))
             elif v == "f10":
                 # finding F10: a comment right after the route path, then a line break
-                out.append(self.ws() + (self.line_comment() if r.random() < 0.6 else self.block()) + "\n" + indent)
+                out.append((self.ws() or " ") + (self.line_comment() if r.random() < 0.6 else self.block()) + "\n" + indent)
             elif v == "path-end":
                 # after the last token of a route path: never a comment (finding F10); blanks only
                 out.append(r.choice([" ", " ", "  ", "\t"]))
